@@ -211,9 +211,9 @@ def make_eval(pas, family, kernel, dim):
         cls = getattr(mods[f], cname)
         g = [C09Zero(dest=d, sources=None) for d in names]
         g += [cls(dest=d, sources=names, **kw(dim)) for d in names]
-        groups.append(Group(equations=g))
+        groups.append(Group(equations=g, name='c09_%s_%d' % (family, k)))
         groups.append(Group(equations=[C09Copy(dest=d, sources=None, k=k, n=len(eqs))
-                                       for d in names]))
+                                       for d in names], name='c09_%s_copy%d' % (family, k)))
     ae = AccelerationEval(particle_arrays=pas, equations=groups, kernel=kernel)
     comp = SPHCompiler(ae, integrator=None)
     comp.compile()
@@ -363,6 +363,10 @@ def plan(seed, tier, wide=False):
                                          'nnps': nn, 'cache': rng.random() < 0.5,
                                          'wdeltap': rng.choice([0.8, 1.7, -1.0])})
                 tasks.append((fam, kname, narr, cfgs))
+    only = os.environ.get('C09_ONLY')          # debugging aid: fam:kernel:narr
+    if only:
+        f, k, n = only.split(':')
+        tasks = [t for t in tasks if t[0] in f.split(',') and t[1] == k and t[2] == int(n)]
     return tasks
 
 
@@ -457,14 +461,15 @@ def py_precomputed(meta, pa, pb, lk):
     ns = {'sqrt': math.sqrt, 'd_idx': 0, 's_idx': 0,
           'KERNEL': lk.KERNEL, 'GRADIENT': lk.GRADIENT, 'DWDQ': lk.DWDQ,
           'GRADH': lk.GRADH, 'DELTAP': lk.k.get_deltap()}
+    for sym in meta['precomputed']:
+        cb = ctx[sym]
+        for nm, default in cb.context.items():
+            if nm in meta['precomputed']:      # the symbol's declared default
+                ns[nm] = list(default) if isinstance(default, (list, tuple)) else default
     for f, v in pa.items():
         ns['d_' + f] = [v]
     for f, v in pb.items():
         ns['s_' + f] = [v]
-    for sym in meta['precomputed']:
-        cb = ctx[sym]
-        for nm, default in cb.context.items():
-            ns[nm] = list(default) if isinstance(default, (list, tuple)) else default
     for sym in meta['precomputed']:
         exec(ctx[sym].code, ns)
     return ns
@@ -552,6 +557,7 @@ def validate_translator(R, meta, seed, ncase):
     if names[0] != 'ok' or names[1].split(',') != fields:
         raise SystemExit('driver was built from a different Gen file than the '
                          'translator produces for this tree: %r' % names[:2])
+    prenames = names[2].split(',')
     knames = [k for k in KERNELS_ALL]
     lines, expect = [], []
     for e in meta['handled']:
@@ -610,6 +616,21 @@ def validate_translator(R, meta, seed, ncase):
             expect.append((e, 'pair', want, ulps,
                            {'tag': e['tag'], 'sf': sf, 'sb': sb, 'acc': acc, 'a': pa,
                             'b': pb, 'kernel': kname, 'dim': dim}))
+            if c % 4 == 0:
+                # every precomputed symbol of the pair
+                wantp = []
+                for nm in prenames:
+                    if nm[-2:] in ('_0', '_1', '_2') and nm[:-2] in T.VEC_SYMS:
+                        wantp.append(ns[nm[:-2]][int(nm[-1])])
+                    else:
+                        wantp.append(ns[nm])
+                lines.append('pre a=%s b=%s kw=%s kg=%s kd=%s kh=%s deltap=%s' % (
+                    H.flist([pa[f] for f in fields]), H.flist([pb[f] for f in fields]),
+                    H.flist(lk.kw), H.flist(lk.kg), H.flist(lk.kd), H.flist(lk.kh),
+                    H.fbits(lk.k.get_deltap())))
+                expect.append((dict(e, tag='precomputed'), 'pre', wantp, 0,
+                               {'tag': 'precomputed', 'acc': [math.nan] * len(wantp),
+                                'a': pa, 'b': pb, 'kernel': kname, 'dim': dim}))
     out = H.run_model('C09', lines)
     if len(out) != len(lines):
         raise SystemExit('model driver answered %d lines for %d' % (len(out), len(lines)))
@@ -621,7 +642,7 @@ def validate_translator(R, meta, seed, ncase):
             toks = ans[3:].strip()
             got = [H.bits2f(t) for t in toks.split(',')] if toks != '_' else []
             ok = len(got) == len(want) and all(same(g, w, ulps) for g, w in zip(got, want))
-        changed = any(not same(w, a0) for w, a0 in zip(want, case['acc']))
+        changed = level == 'pre' or any(not same(w, a0) for w, a0 in zip(want, case['acc']))
         R.case(ln, changed, {'part': 'translator', 'level': level, 'case': case,
                              'python': want, 'lean': got}
                if R.d['evaluations'] % 499 == 0 else None)
